@@ -552,7 +552,7 @@ class Gen:
         if reuse is None:
             dn['plan']['labels'] = list(labels)
         if reuse is None and self.hostile == 'switch_unknown_label' and 'switch_unknown_label' not in self.injected:
-            unknown = rng.choice(['ZZZ', None, None, 0, ''])      # a label no case declares (incl. None / falsy)
+            unknown = rng.choice(['ZZZ', None, None, 0, '', ['L0'], {}])      # a label no case declares (incl. None / falsy / unhashable)
             alike = {'1': 1, 1: '1', 'None': None, None: 'None', '0': 0, 0: '0'}
             twins = [alike[l] for l in labels if l in alike and alike[l] not in labels]
             if twins:
